@@ -71,7 +71,8 @@ for L in LISTS:
     a=f'//@   assert[only C02.{L}] at loop 1 body end:'
     body.append(f'''{a} Len{L}(edits) == athead(Len{L}(edits)) + ite(fst[#i - 1], len(DvAt(dv, #i - 1).spec.ContainerEdits.{L}), 0) + Dev{L}Len(DvAt(dv, #i - 1))
 {a} off{L}[#i - 1] == athead(Len{L}(edits)) && mid{L}[#i - 1] == off{L}[#i - 1] + ite(fst[#i - 1], len(DvAt(dv, #i - 1).spec.ContainerEdits.{L}), 0) &&
-//@                        end{L}[#i - 1] == mid{L}[#i - 1] + Dev{L}Len(DvAt(dv, #i - 1)) && end{L}[#i - 1] == off{L}[#i]
+//@                        end{L}[#i - 1] == mid{L}[#i - 1] + Dev{L}Len(DvAt(dv, #i - 1)) && end{L}[#i - 1] == off{L}[#i] &&
+//@                        off{L}[#i - 1] <= mid{L}[#i - 1] && mid{L}[#i - 1] <= end{L}[#i - 1] && athead(Len{L}(edits)) <= Len{L}(edits) && 0 <= athead(Len{L}(edits))
 {a} forall(p, 0 <= p && p < athead(Len{L}(edits)), trig(pos(edits.{L}, p), edits.{L}[p] == athead(edits.{L}[p])))
 {a} forall(p, mid{L}[#i - 1] <= p && p < end{L}[#i - 1], trig(pos(edits.{L}, p),
 //@                        edits.{L}[p] == DvAt(dv, #i - 1).ContainerEdits.{L}[p - mid{L}[#i - 1]]))
